@@ -39,7 +39,7 @@ PROPS = {
     },
     "C04": {
         "level": "exploration",
-        "stages": [native("main", timeout=300, timeout_thorough=1200)],
+        "stages": [native("main", timeout=300, timeout_thorough=1200), native("ids")],
     },
     "C05": {
         "level": "exploration",
